@@ -31,6 +31,8 @@ type hostileCase struct {
 	Ws   []ref.Warrior // fields are reduced modulo the core size by the judge
 	Offs []int
 	Run  int // cycles to step before the final Run()
+	// every Respawn-th cycle (0: never) a warrior that has died is spawned again, no Reset in between
+	Respawn int
 }
 
 func cfgField(label string) *rapid.Generator[int] {
@@ -142,6 +144,9 @@ func genHostileWarriors(t *rapid.T, c *hostileCase) {
 		c.Offs = append(c.Offs, off)
 	}
 	c.Run = rapid.IntRange(1, 400).Draw(t, "run")
+	if rapid.IntRange(0, 3).Draw(t, "respawn") == 0 {
+		c.Respawn = rapid.IntRange(1, 7).Draw(t, "respawnevery")
+	}
 	if c.Cfg.CoreSize >= 8 && c.Cfg.CoreSize <= 256 && c.Cfg.Cycles >= 1 && gen.Rare(t, "longsplit", 6) {
 		// a splitter that cannot die, thousands of cycles, process limits in the hundreds and
 		// thousands that are not powers of two (the task count must saturate exactly at the limit)
@@ -273,7 +278,7 @@ func judgeHostile(c hostileCase, rec *hx.Rec) string {
 		return "after spawning: " + d
 	}
 	steps := c.Run
-	hitLimit, died, split, outside := false, false, false, false
+	hitLimit, died, split, outside, respawned := false, false, false, false, false
 	for s := 0; s < steps; s++ {
 		ar.addrs = ar.addrs[:0]
 		var ret int
@@ -282,6 +287,28 @@ func judgeHostile(c hostileCase, rec *hx.Rec) string {
 		}
 		if d := inv(); d != "" {
 			return fmt.Sprintf("after RunCycle #%d: %s", s, d)
+		}
+		if c.Respawn > 0 && (s+1)%c.Respawn == 0 {
+			// a second life without a Reset: the bookkeeping of the first must not be in the way
+			for i, w := range ws {
+				if !w.Alive() {
+					var serr error
+					if pm := hx.Safely(func() { serr = sim.SpawnWarrior(i, gmars.Address(offMod(c.Offs[i], m)+s)) }); pm != "" {
+						return fmt.Sprintf("SpawnWarrior(%d) of a dead warrior after RunCycle #%d panicked: %s", i, s, pm)
+					}
+					if serr != nil {
+						return fmt.Sprintf("SpawnWarrior(%d) of a dead warrior after RunCycle #%d: %v", i, s, serr)
+					}
+					respawned = true
+					for k := range c.Ws[i].Code {
+						loaded[(offMod(c.Offs[i], m)+s+k)%m] = true
+					}
+					if d := inv(); d != "" {
+						return fmt.Sprintf("after spawning warrior %d again (it had died) after RunCycle #%d: %s", i, s, d)
+					}
+					break
+				}
+			}
 		}
 		for _, a := range ar.addrs {
 			if !loaded[int(a)] {
@@ -344,6 +371,7 @@ func judgeHostile(c hostileCase, rec *hx.Rec) string {
 		add(true, "config_accepted")
 		add(hitLimit, "queue_hit_limit")
 		add(died, "warrior_died")
+		add(respawned, "dead_warrior_spawned_again")
 		add(split, "split")
 		add(outside, "touched_outside_loaded_code")
 		add(m <= 5, "core_le_5")
@@ -359,7 +387,7 @@ func judgeHostile(c hostileCase, rec *hx.Rec) string {
 	return ""
 }
 
-const c04Rule = "rapid draws all eight configuration fields from {0, 1..3, small, 2^19, 2^20-1, 2^20, uniform 0..2^20} (limits tied to the core half the time so that acceptance is common): creation must return exactly one of simulator/error and never panic. On accepted configurations 1..4 warriors of arbitrary instructions (fields reduced into [0,M), all forms, overlapping offsets up to 3M) are stepped up to 400 cycles; after every RunCycle: fields < M and defined opcode/modifier/modes in every cell (full scan for M<=256, reported addresses plus final full scan above), queued pcs < M, queue length <= process limit, CycleCount <= cycle limit, living count == number alive, alive <=> queue non-empty; a final Run() returns within a budget. Non-trivial: accepted configuration whose battle touched a cell outside the loaded code and had a split or a death; distinct by case hash."
+const c04Rule = "rapid draws all eight configuration fields from {0, 1..3, small, 2^19, 2^20-1, 2^20, uniform 0..2^20} (limits tied to the core half the time so that acceptance is common): creation must return exactly one of simulator/error and never panic. On accepted configurations 1..4 warriors of arbitrary instructions (fields reduced into [0,M), all forms, overlapping offsets up to 3M) are stepped up to 400 cycles (in a quarter of the battles a warrior that has died is spawned again every few cycles, without a Reset); after every RunCycle: fields < M and defined opcode/modifier/modes in every cell (full scan for M<=256, reported addresses plus final full scan above), queued pcs < M, queue length <= process limit, CycleCount <= cycle limit, living count == number alive, alive <=> queue non-empty; a final Run() returns within a budget. Non-trivial: accepted configuration whose battle touched a cell outside the loaded code and had a split or a death; distinct by case hash."
 
 func TestC04(t *testing.T) {
 	hx.Run(t, hx.Prop[hostileCase]{
